@@ -12,7 +12,7 @@ from vf import ref_sgml
 from vf import universe as U
 from vf import wire
 from vf.checks.c04 import to_et
-from vf.core import HarnessError, Tally
+from vf.core import vacuous, HarnessError, Tally
 
 LEVEL = "fault_enumeration"
 
@@ -209,22 +209,22 @@ def run(ctx):
     jobs.sort(key=lambda j: -len(S.children(U.cls_by_name(j[0]))))
     tally = ctx.pmap(work, jobs, chunk=1)
     if tally.counts.get("insertions", 0) < 20000 or tally.counts.get("classes") != len(classes):
-        raise HarnessError(f"vacuous: {tally.counts}")
+        vacuous(tally, f"vacuous: {tally.counts}")
     if not tally.fails:
         for o in ("ok-tree", "ok-xml", "ok-sgml", "warn", "silent"):
             if o not in tally.outcomes:
-                raise HarnessError(f"vacuous: {o} never observed")
+                vacuous(tally, f"vacuous: {o} never observed")
     sd = wire.doc(U.MIN(U.cls_by_name("STATUS")))
     tally.sample({"clean": ref_sgml.render(sd), "with_insertion": ref_sgml.render(insert_at(sd, [], 1, ("INTU.BID", "3")))})
     cov = {
-        "evaluations": tally.counts["evaluations"],
-        "distinct_nontrivial": tally.counts["insertions"],
+        "evaluations": tally.counts.get("evaluations", 0),
+        "distinct_nontrivial": tally.counts.get("insertions", 0),
         "rule": "every class x {MIN, MAXS} document x every child position of the root aggregate"
         + (" and of every aggregate one level below it" if ctx.thorough else " (one level deeper for the classes around MAIL/MFINFO/STOCKINFO)") +
         " x 10 unknown items (element / aggregate whose name is a tag of OTHER classes, digit-initial aggregate wrapping a known child, digit-initial element, data element, empty "
         "element, aggregate with nested content, aggregate wrapping a known child, vendor-prefixed element, vendor-prefixed aggregate) x 3 routes; + on MIN every pair of positions x 6 item pairs (incl. two vendor tags, same and different positions); distinct_nontrivial = distinct "
         "(document, insertion) pairs, evaluations = those x routes",
-        "classes": tally.counts["classes"],
+        "classes": tally.counts.get("classes", 0),
         "exhaustive": True,
     }
     return {"tally": tally, "coverage": cov, "assumptions": ["documents are rendered by the reference renderer; unknown names FOO/BAR/BAZ/QUX/INTU.* are checked not to be declared by the class",
